@@ -52,6 +52,10 @@ Do(s) ==
          /\ UNCHANGED <<cfg, gone, fold>> /\ ev' = s
     [] s.op = "cbSet" ->        \* a Set callback starts: applied mutations (added, deleted)
          /\ ~incb[s.s] /\ ~gone[s.s]
+         \* every change exactly once: what is reported as added is new to this subscriber, what is reported as deleted is
+         \* something it was told about (the first report is the contents at subscription time, from the empty view)
+         \* (one Apply may add and delete the same element: then it is reported in both parts)
+         /\ ToSet(s.added) \cap fold[s.s] = {} /\ ToSet(s.deleted) \subseteq fold[s.s] \cup ToSet(s.added)
          /\ fold' = [fold EXCEPT ![s.s] = (@ \cup ToSet(s.added)) \ ToSet(s.deleted)]
          /\ incb' = [incb EXCEPT ![s.s] = TRUE] /\ ncb' = [ncb EXCEPT ![s.s] = @ + 1]
          /\ UNCHANGED <<cfg, last, gone, succ, pred>> /\ ev' = s
